@@ -251,3 +251,15 @@ def bufOk (E : Env) : Ev → Prop
   | _ => True
 
 end Jedi.Go
+
+namespace Jedi.Go
+
+/-- executable negation of `bufOk`, for the search only: the first buffer argument that is too short, with (needed, available) -/
+def bufShort (E : Env) : Ev → Option (String × Int × Option Int)
+  | .ccall fn a => ((bufNeeds E fn a).filterMap (fun p =>
+      match p.1.avail with
+      | some av => if av < p.2 then some (fn ++ " " ++ p.1.text, p.2, some av) else none
+      | none => some (fn ++ " " ++ p.1.text, p.2, none))).head?
+  | _ => none
+
+end Jedi.Go
